@@ -48,6 +48,8 @@ def run(ck, fx, cg, tier):
                       "an explicit flush before exit is not demanded: errors swallowed by BufWriter's drop concern "
                       "failing sinks, which the property's quantifier (short writes) does not include"]
     rs = roots(ck, fx, cg)
+    from .. import canary
+    canary.require(ck, {'R8.count', 'Rx.propagate'})
     reach = cg.reachable(rs)
     n_sink_sites = 0
     n_result_sites = 0
